@@ -291,7 +291,105 @@ func runC07(seed int64, n int) {
 		c07Bodies(seed, n)
 	}
 	if len(sum.Failures) == 0 {
+		c07RefusedMany()
+	}
+	if len(sum.Failures) == 0 {
 		c07ReadOnly(seed)
+	}
+}
+
+// c07RefusedMany: a call that writes many elements is refused as a whole when one of its values
+// is of a type that cannot be stored.  Inside a caller-managed transaction whose callback notes the
+// error and commits anyway, the refused call must have left nothing behind (the order in which a
+// Go map is walked must not decide which part of a refused call was written).
+func c07RefusedMany() {
+	type bad struct{}
+	many := func(n int, badAt int, val func(i int) any) map[string]any {
+		m := map[string]any{}
+		for i := 0; i < n; i++ {
+			if i == badAt {
+				m[fmt.Sprintf("n%02d", i)] = bad{}
+			} else {
+				m[fmt.Sprintf("n%02d", i)] = val(i)
+			}
+		}
+		return m
+	}
+	calls := []struct {
+		name string
+		run  func(tx *redka.Tx, trial int) error
+	}{
+		{"Str().SetMany", func(tx *redka.Tx, t int) error {
+			return tx.Str().SetMany(many(30, t%30, func(i int) any { return "v" }))
+		}},
+		{"Hash().SetMany (existing hash)", func(tx *redka.Tx, t int) error {
+			_, err := tx.Hash().SetMany("h", many(30, t%30, func(i int) any { return i }))
+			return err
+		}},
+		{"Hash().SetMany (new hash)", func(tx *redka.Tx, t int) error {
+			_, err := tx.Hash().SetMany(fmt.Sprintf("hnew%d", t), many(30, t%30, func(i int) any { return "v" }))
+			return err
+		}},
+		{"Set().Add", func(tx *redka.Tx, t int) error {
+			vals := make([]any, 30)
+			for i := range vals {
+				vals[i] = fmt.Sprintf("m%02d", i)
+			}
+			vals[5+t%25] = bad{}
+			_, err := tx.Set().Add("e", vals...)
+			return err
+		}},
+		{"ZSet().AddMany", func(tx *redka.Tx, t int) error {
+			items := map[any]float64{}
+			for i := 0; i < 30; i++ {
+				items[fmt.Sprintf("m%02d", i)] = float64(i)
+			}
+			items[bad{}] = 1
+			_, err := tx.ZSet().AddMany("z", items)
+			return err
+		}},
+		{"ZSet().Delete", func(tx *redka.Tx, t int) error {
+			vals := []any{"a", "b", bad{}, "c"}
+			_, err := tx.ZSet().Delete("z", vals...)
+			return err
+		}},
+		{"Set().Delete", func(tx *redka.Tx, t int) error {
+			_, err := tx.Set().Delete("e", "x", bad{}, "y")
+			return err
+		}},
+		{"List().PushBack", func(tx *redka.Tx, t int) error {
+			_, err := tx.List().PushBack("l", bad{})
+			return err
+		}},
+	}
+	for ci, c := range calls {
+		for trial := 0; trial < 6 && len(sum.Failures) == 0; trial++ {
+			x, err := hx.OpenMem(fmt.Sprintf("c07rm_%d_%d", ci, trial))
+			if err != nil {
+				fail("harness", err.Error(), nil)
+				return
+			}
+			_ = x.DB.Str().Set("n03", "old")
+			_, _ = x.DB.Hash().Set("h", "n04", "old")
+			_, _ = x.DB.Set().Add("e", "x", "m07")
+			_, _ = x.DB.ZSet().Add("z", "a", 1)
+			_, _ = x.DB.List().PushBack("l", "a")
+			d0, _ := x.DumpRaw()
+			var callErr error
+			txErr := x.DB.Update(func(tx *redka.Tx) error {
+				callErr = c.run(tx, trial)
+				return nil // the callback notes the error and carries on
+			})
+			d1, _ := x.DumpRaw()
+			sum.Cases++
+			count("refused_multi_element_calls")
+			if callErr == nil {
+				fail("c07-not-atomic", fmt.Sprintf("%s with a value that cannot be stored among its arguments reported success", c.name), nil)
+			} else if txErr == nil && d1 != d0 {
+				fail("c07-not-atomic", fmt.Sprintf("%s was refused (%v) inside a transaction that then committed, yet part of it was written\n before: %s\n after : %s", c.name, callErr, d0, d1), nil)
+			}
+			x.Close()
+		}
 	}
 }
 
